@@ -155,19 +155,27 @@ Qed.
 Ltac walk_pos_body_tac g :=
   let i := fresh "i" in let p1 := fresh "p1" in let rnd1 := fresh "rnd1" in
   let c1 := fresh "c1" in let pt1 := fresh "pt1" in
+  let v0 := fresh "v0" in let ix0 := fresh "ix0" in let Enth := fresh "Enth" in
   intros i [[[p1 rnd1] c1] pt1]; cbv beta iota zeta; unfold draw, drawn, sub;
-  try (rewrite (for_range_as_enum ug (hrow g (fst (nth i pt1 un))) _
+  (* the item of the position: read through item[0] or unpacked in the for header *)
+  destruct (nth i pt1 un) as [v0 ix0] eqn:Enth; cbv beta iota zeta; cbn [fst snd];
+  try (rewrite (for_range_as_enum ug (hrow g v0) _
          (fun index (grp : T * nat) '(cur_prob, pt_item_pt) =>
             if leb (hd ud rnd1) (add cur_prob (gw grp))
-            then Brk (add cur_prob (gw grp), set_nth pt_item_pt i (fst (nth i pt1 un), index))
+            then Brk (add cur_prob (gw grp), set_nth pt_item_pt i (v0, index))
             else Cont (add cur_prob (gw grp), pt_item_pt)))
       by (intros ? [? ?] ?; reflexivity));
   unfold for_enum;
-  rewrite (loop_scan add leb gw (hd ud rnd1)
-             (fun (index : nat) (_ : T * nat) (pp : list (nat * nat)) => set_nth pp i (fst (nth i pt1 un), index)))
-    by (intros ? ? ? ?; reflexivity);
-  unfold pos_step; rewrite pick_scan;
-  destruct (scan add leb gw (hd ud rnd1) (hrow g (fst (nth i pt1 un))) zero 0) as [? [[? ?]|]]; reflexivity.
+  (* the group found is stored at once (for ... else), or its index is kept (default = last group before
+     the loop) and stored after the loop *)
+  first
+    [ rewrite (loop_scan add leb gw (hd ud rnd1)
+                 (fun (index : nat) (_ : T * nat) (pp : list (nat * nat)) => set_nth pp i (v0, index)))
+        by (intros ? ? ? ?; reflexivity)
+    | rewrite (loop_scan add leb gw (hd ud rnd1) (fun (index : nat) (_ : T * nat) (_ : nat) => index))
+        by (intros ? ? ? ?; reflexivity) ];
+  unfold pos_step; cbv beta iota zeta; rewrite Enth; cbn [fst]; rewrite pick_scan;
+  destruct (scan add leb gw (hd ud rnd1) (hrow g v0) zero 0) as [? [[? ?]|]]; reflexivity.
 
 Ltac walk_positions_tac g us u0 c0 vars Hl :=
   unfold for_enum_cur, for_each;
@@ -226,7 +234,20 @@ Proof.
         by (intros j x cur q; reflexivity);
       destruct (scan add leb (@fst T (list nat)) u0 (hbases g) zero 0) as [c [[k x]|]];
       destruct Hm as [Hin Hm]; eexists; (split; [exact Hm|]); subst Oelse; cbv beta;
-      [ apply (HK c (Some x)) | apply (HK c None) ]; apply Hlen; exact Hin ] ].
+      [ apply (HK c (Some x)) | apply (HK c None) ]; apply Hlen; exact Hin ]
+  | (* for ... else that only records the chosen entry; the structure is built from it afterwards *)
+    solve [
+      assert (HK : forall c0 (b : T * list nat), length (snd b) <= length us ->
+                Krest (c0, b) =
+                (m_walk_positions g (snd b) us, one, find_prob (m_walk_positions g (snd b) us) one))
+        by (intros c0 b Hl; subst Krest; cbv beta iota zeta; walk_positions_tac g us u0 c0 (snd b) Hl);
+      unfold for_each at 1;
+      rewrite (loop_scan add leb (@fst T (list nat)) u0
+                 (fun (_ : nat) (item : T * list nat) (_ : T * list nat) => item))
+        by (intros j x cur q; reflexivity);
+      destruct (scan add leb (@fst T (list nat)) u0 (hbases g) zero 0) as [c [[k x]|]];
+      destruct Hm as [Hin Hm]; eexists; (split; [exact Hm|]); subst Oelse; cbv beta iota zeta;
+      apply HK; apply Hlen; exact Hin ] ].
 Qed.
 
 (* ---- what the model's walk is, position by position ---- *)
